@@ -252,12 +252,20 @@ def tla(v):
         return "[" + ", ".join("%s |-> %s" % (k, tla(x)) for k, x in v.items()) + "]"
     if isinstance(v, Raw):
         return v.text
+    if isinstance(v, SetOf):
+        return "{" + ", ".join(tla(x) for x in v.items) + "}"
     raise TypeError("cannot convert %r to TLA+" % (v,))
 
 
 class Raw:
     def __init__(self, text):
         self.text = text
+
+
+class SetOf:
+    """a TLA+ set of (possibly unhashable) Python values"""
+    def __init__(self, items):
+        self.items = list(items)
 
 
 def mc(base, consts, *, spec="Spec", invariants=(), properties=(), constraint=None, view=None,
